@@ -166,6 +166,10 @@ pub struct Plan {
     pub seed: u64,
     pub policy: String,
     pub ops: Vec<SOp>,
+    /// every script's `.append` is a step boundary of its thread (knob nu.append.point):
+    /// overlapping calls and invocations interleave inside their scripts
+    #[serde(default)]
+    pub split_append: bool,
     #[serde(default)]
     pub choices: Vec<String>,
 }
@@ -467,7 +471,7 @@ impl Run {
         if !plan.ops.iter().any(|o| matches!(o, SOp::SpawnRace { .. })) {
             pass.push("gen.started");
         }
-        let mut w = World::new(tag, plan.seed ^ 0xe5, &[], &pass);
+        let mut w = World::new(tag, plan.seed ^ 0xe5, &[("nu.append.point", plan.split_append as usize)], &pass);
         let path = w.dir.join("s0");
         std::fs::create_dir_all(&path).map_err(|e| Stop::Harness(e.to_string()))?;
         let store = w.open_store(&path)?;
@@ -2450,6 +2454,7 @@ pub fn generate(seed: u64, prop: &str, thorough: bool) -> Plan {
         seed,
         policy: policy.to_string(),
         ops,
+        split_append: (prop == "C19" || prop == "C15") && rng.chance(40),
         choices: vec![],
     }
 }
